@@ -2477,3 +2477,14 @@ def run(chk):
     _l.check_cache_keys(chk, U.ADV, "ParallelGradient")
     chk.floor("F7-", 9)
     chk.floor("C-", 3)
+
+
+# --- engine I (pgverif/oneshot.py): one-shot iterators handed out by the grid accessors are walked once per creation and never memoised.
+# Run first so that its reports do not depend on the idiom recognition of the rules above.
+_run_before_engine_I = run
+
+
+def run(chk):  # noqa: F811
+    from ..oneshot import attach
+    attach(chk, [(U.ADV, {"ParallelGradient"})])
+    _run_before_engine_I(chk)
